@@ -4,6 +4,7 @@ import lib
 import progen
 import compilers
 from props.c02 import resigil
+from props import c03_env
 
 LEVEL = "proof"
 
@@ -29,11 +30,21 @@ def run(chk):
                        "parameter lists), defmacro templates, defconstant, if/list/qq/unquote, 1..40 parameters x 3 argument "
                        "trees; compiled by the classic compiler (compile_clvm_text) and run by clvmr; oracle Lang.evalSrc; "
                        "the same text with the *standard-cl-21* sigil added is compiled by the modern compiler and both "
-                       "builds must agree when both return. distinct = (program, args, entry)")
+                       "builds must agree when both return. distinct = (program, args, entry).  "
+                       "Layout part (props/c03_env.py): generated parameter trees (1..40 names, flat / dotted / nested / "
+                       "first-, rest- and zig-zag chains to 72 levels, (@ n pat) captures incl. rejected shapes, repeated "
+                       "names, integer/string/64/0x40 leaves) x 0..12 used helpers (+ pruned unused ones): symbol tables, "
+                       "argument root and build_tree_program tree of the real compiler (unevaluated stage-2 `com` result) "
+                       "byte-identical to Lang/ClassicEnv.lean; oracle: (mod PAT NAME) and (mod PAT (defconstant KK 1000) "
+                       "(c KK NAME)) run by clvmr on a fitted argument tree return the bound value; programs with 0..12 used "
+                       "constants/functions (functions using constants and earlier functions) + unused ones return the "
+                       "value every helper denotes")
     ok, out = lib.build_harness()
     if not ok:
         chk.fail("proof", "harness-build", {}, out[-1500:])
         return
+    # environment layout of the classic compiler: model = real code (byte identity) + oracle
+    c03_env.run(chk, 700 if quick else 20000, 250 if quick else 8000)
     n = 250 if quick else 8000
     progs = compilers.gen_programs(rng, "classic", n, nargs=3, features=None)
     for p in progs:
@@ -55,5 +66,9 @@ def run(chk):
                     chk.fail("oracle", sig, {"program": p["text"], "args": gen.hexv(p["args"][k]),
                                              "args_text": gen.show(p["args"][k])}, {"classic": x, "cl21": y})
     chk.cov["modelled_not_verified"] = [
+        "build_used_constants_names (pruning of unused helpers) and the byte-lexicographic sort: modelled (sortNames) / "
+        "generated around, tied by the classicenv correspondence, no theorem (any order is sound as table and tree use the same list)",
+        "parameter patterns outside classicPatOk ((64 n p), (@ X p) with X not an identifier, literal 0): classic and "
+        "source-level destructuring differ by design; model = implementation is still checked on them",
         "the classic compiler's macro expansion / com / opt machinery beyond the path assignment and the optimiser (C04): differential only",
     ]
